@@ -31,6 +31,8 @@ def unwire(v):
         return None
     if t in ('bool', 'int'):
         return v[1]
+    if t == 'dec':                      # exact decimal m * 10^e of the C11 generators
+        return float('%de%d' % (v[1], v[2]))
     if t == 'str':
         return ''.join(chr(c) for c in v[1])
     if t == 'arr':
